@@ -39,7 +39,8 @@ SPEC = dict(
               "(a|b)|c vs a|(b|c) vs Conjunction([a,b,c]) over all atom triples; 7 mutator kinds x 6 dict types; 7x7 (key shape, value "
               "shape) pairs and all 2-entry dictionaries over them x 6 dict types",
         thorough="additionally: every well-formed 3-member stack/conjunction of the 534 behaviour representatives is built and applied; "
-                 "conjunction associativity over all (required,output)-representative triples",
+                 "conjunction associativity over all (required,output)-representative triples and over all well-formed triples of the "
+                 "534 behaviour representatives",
     ),
     assumptions=[
         "Grad/Jac/Aggregate are not part of the term language here (C15); Diagonalize lists its keys in index order",
@@ -47,6 +48,11 @@ SPEC = dict(
         "applications whose dictionary type contradicts the transform's annotated input type (Diagonalize/Accumulate/Stack members fed "
         "something that is not a Gradients) are not asserted beyond the key check (model verdict ILL; counted in dropped)",
         "depth 3 is explored modulo the signature classes; the quotient is justified by the depth-2 run, where no quotient is taken",
+        "depth-3 terms: each of the 7 wrong key sets is applied with one dict type (rotating with the key set), the required key set with "
+        "every dict type; atoms and depth-2 terms get the full 8 key sets x 5 dict types product",
+        "torch.Tensor.__repr__ is replaced by a cheap one while a case runs (the library prints the key tensors into every ValueError)",
+        "ValueError on the REQUIRED key set is compared with the model too (Diagonalize of no key; Jacobians union with unequal row "
+        "counts): the statement only claims 'wrong keys => ValueError', the converse does not hold in the code",
     ],
     min_outcomes=20,
 )
@@ -250,6 +256,8 @@ def gen_cases(tier, seed):
             cases.append(dict(kind="d3tri_rich", ctor="Cj", first=i, seed=seed))
         for i in range(len(u["coarse"])):
             cases.append(dict(kind="law_cj", pool="coarse", first=i, seed=seed))
+        for i in range(nr):
+            cases.append(dict(kind="law_cj", pool="rich", first=i, seed=seed))
     return cases
 
 
@@ -683,6 +691,7 @@ def run_case(case):
 
 def _run_case(case):
     w = world(case["seed"])
+    w.built.clear()  # construction cache is per case, so that the execution counters do not depend on the worker's history
     u = universe()
     acc = Acc()
     kind = case["kind"]
@@ -729,11 +738,17 @@ def _run_case(case):
         R = u["rich"]
         a = R[case["first"]]
         same = [t for t in R if sig(t)[0] == sig(a)[0]]
+        cj = case["ctor"] == "Cj"
         for b in same:
+            if cj and sig(a)[1] & sig(b)[1]:
+                continue  # ill-formed whatever c is (construction of ill-formed triples is covered by d3tri)
             for c in same:
+                if cj and (sig(a)[1] | sig(b)[1]) & sig(c)[1]:
+                    continue
                 t = (case["ctor"], (a, b, c))
-                if sig(t) is not None:
-                    check_term(w, acc, t)
+                if sig(t) is None:
+                    raise RuntimeError("harness: pre-filter and model disagree")
+                check_term(w, acc, t)
     elif kind == "law_co_atoms":  # constructibility of both bracketings over ALL atom triples; results where well-formed
         a = WF_ATOMS[case["first"]]
         for b in WF_ATOMS:
@@ -759,6 +774,15 @@ def _run_case(case):
                 if sig(("Co", b, c)) is None or (a in WF_ATOMS and b in WF_ATOMS and c in WF_ATOMS):
                     continue
                 compare_law(w, acc, "composition-associative", [("Co", ("Co", a, b), c), ("Co", a, ("Co", b, c))])
+    elif kind == "law_cj" and case["pool"] == "rich":  # well-formed triples of behaviour representatives only
+        R = u["rich"]
+        a = R[case["first"]]
+        same = [t for t in R if sig(t)[0] == sig(a)[0] and not sig(t)[1] & sig(a)[1]]
+        for b in same:
+            for c in same:
+                if sig(b)[1] & sig(c)[1]:
+                    continue
+                compare_law(w, acc, "conj-associative", [("Cj", (("Cj", (a, b)), c)), ("Cj", (a, ("Cj", (b, c)))), ("Cj", (a, b, c))])
     elif kind == "law_cj":
         P = WF_ATOMS if case["pool"] == "atoms" else u["coarse"]
         a = P[case["first"]]
